@@ -88,6 +88,8 @@ CHECKS = {
                      step("VerifC02Graph", {"tasks": 5, "dagonly": 1, "concretenames": 1}, {"tasks": 5, "dagonly": 1, "concretenames": 1}, reach=["acyclic"]),
                      # dependencies listed twice in depends_on (accepted by the loader): every DAG on 4 tasks x every doubling x every name order
                      step("VerifC02Graph", {"tasks": 4, "dagonly": 1, "concretenames": 1, "dupdeps": 1, "permute": 1}, {"tasks": 4, "dagonly": 1, "concretenames": 1, "dupdeps": 1, "permute": 1}, reach=["acyclic", "dependency-listed-twice"]),
+                     # every labelled DAG on 6 tasks with at most 6 edges: accepted (349,273 paths, ~2.5 min); the smallest false cycle of seed S02a has 6 edges
+                     step("VerifC02Graph", {"tasks": 6, "alldags": 1, "concretenames": 1, "permute": 1, "acceptonly": 1, "maxedges": 6}, {"tasks": 6, "alldags": 1, "concretenames": 1, "permute": 1, "acceptonly": 1, "maxedges": 6}, reach=["acyclic"]),
                      # every labelled DAG on 6 tasks (names in rank order = map insertion order): accepted (3.78 M paths)
                      step("VerifC02Graph", {}, {"tasks": 6, "alldags": 1, "concretenames": 1, "permute": 1, "acceptonly": 1}, reach=["acyclic"], thorough_only=True), SELFTEST]},
     "C03": {"prefixes": ["C03."], "assumptions": L3_ASSUME, "validate_samples": {"quick": 1, "thorough": 3},
